@@ -100,6 +100,9 @@ def run_case(case):
             xml = X.generateIntrospectionXML(case['path'], exports)
         except Exception as e:
             return [Disc(exc_key(e, 'xml.generate'), exc_detail(e))]
+        if not isinstance(xml, str):
+            return [Disc('xml.none-for-exported-object', 'generateIntrospectionXML(%r) returned %r for an exported object' % (
+                case['path'], xml))]
         # ---- independent reading of the XML
         try:
             body = xml[xml.index('<node'):]
